@@ -4,7 +4,7 @@ from py import vlib
 GENS = ['Rnn']
 RULE = ('(a) a DP recurrent layer loaded from the torch layer\'s state_dict vs the torch layer in float64: outputs, final hidden / cell states, parameter gradients (1e-9), '
         'state_dict keys / shapes / round trip, over (kind in rnn-tanh / rnn-relu / gru / lstm, layers 1-3, bidirectional, bias, batch_first, padded / packed sorted / packed unsorted, '
-        'given / default initial state, B 1-4, T 1-6, length patterns); (b) the real DPRNNBase.forward_layer with an integer stub cell on generated ragged batches, both directions, '
+        'given / default initial state, B 1-4, T 1-6, length patterns, and dropout = 1 in train mode (deterministic)); (a2) train mode with 0 < dropout < 1: no exact zero in the final outputs / final states, train output differs from eval output for >= 2 layers; (b) the real DPRNNBase.forward_layer with an integer stub cell on generated ragged batches, both directions, '
         'compared exactly with the per-sequence recurrence evaluated in Coq; non-trivial = T >= 2 and (packed with unequal lengths or B >= 2); distinct by canonical JSON')
 ASSUMPTIONS = ['torch.nn.RNN / GRU / LSTM are the reference semantics', 'gate equations of the cells are compared numerically, not proved']
 TRUSTED = ['integer stub cell h\' = x + 2 h[:batch] used to observe the index plumbing of the real time loop']
@@ -23,12 +23,26 @@ def gen_equiv(ctx, n):
             lens = sorted(lens, reverse=True)
         cases.append({'seed': r.randint(0, 10**6), 'kind': kind, 'nl': r.choice(['tanh', 'relu']), 'D': r.randint(1, 3), 'H': r.randint(1, 3), 'layers': r.randint(1, 3),
                       'bias': r.random() < 0.7, 'bf': r.random() < 0.5, 'bidir': r.random() < 0.5, 'B': B, 'T': T, 'lens': lens, 'input': inp, 'init': r.random() < 0.5})
+    # dropout = 1 in train mode is deterministic in both implementations: every inter-layer output is dropped, the recurrent state never is
+    for _ in range(max(3, n // 8)):
+        kind = r.choice(['rnn', 'gru', 'lstm'])
+        B, T = r.randint(1, 3), r.randint(2, 5)
+        inp = r.choice(['padded', 'packed_sorted'])
+        lens = sorted([r.randint(1, T) for _ in range(B - 1)] + [T], reverse=True)
+        cases.append({'seed': r.randint(0, 10**6), 'kind': kind, 'nl': 'tanh', 'D': r.randint(1, 3), 'H': r.randint(1, 3), 'layers': r.randint(2, 3), 'bias': True, 'bf': r.random() < 0.5,
+                      'bidir': r.random() < 0.5, 'B': B, 'T': T, 'lens': lens, 'input': inp, 'init': r.random() < 0.5, 'dropout': 1.0, 'warm': False, 'badcall': False})
     # corners named by the property: packed + bidirectional + multi-layer + given initial state + bias=False
     for kind in ('rnn', 'gru', 'lstm'):
         for inp in ('packed_unsorted', 'packed_sorted'):
             cases.append({'seed': 5, 'kind': kind, 'nl': 'relu', 'D': 2, 'H': 3, 'layers': 2, 'bias': False, 'bf': inp == 'packed_sorted', 'bidir': True, 'B': 3, 'T': 4,
                           'lens': [4, 2, 1] if inp == 'packed_sorted' else [2, 4, 1], 'input': inp, 'init': True})
     return cases
+
+
+def gen_dropout(ctx, n):
+    r = ctx.rng
+    return [{'seed': r.randint(0, 10**6), 'kind': r.choice(['rnn', 'gru', 'lstm']), 'nl': 'tanh', 'D': r.randint(1, 3), 'H': r.randint(2, 4), 'layers': r.randint(1, 3), 'bias': True,
+             'bf': r.random() < 0.5, 'bidir': r.random() < 0.5, 'B': r.randint(2, 4), 'T': r.randint(2, 5), 'dropout': r.choice([0.3, 0.5, 0.8])} for _ in range(n)]
 
 
 def gen_plumb(ctx, n):
@@ -53,7 +67,14 @@ def zll(ll):
 
 def run_all(ctx, ne, npl):
     ec, pc = gen_equiv(ctx, ne), gen_plumb(ctx, npl)
-    res = vlib.run_impl('rnn_runs.py', {'equiv': ec, 'plumb': pc}, timeout=7200)
+    dc = gen_dropout(ctx, max(6, ne // 6))
+    res = vlib.run_impl('rnn_runs.py', {'equiv': ec, 'plumb': pc, 'dropout': dc}, timeout=7200)
+    for c, rr in zip(dc, res['dropout']):
+        ctx.case(c, nontrivial=c['layers'] > 1, kind='dropout/%s/L%d' % (c['kind'], c['layers']))
+        if rr.get('error'):
+            ctx.fail('rnn-harness-error', rr['error'], c)
+        for k, w in rr.get('fails', []):
+            ctx.fail('rnn-' + k, '%s (%s)' % (w, c['kind']), c)
     for c, rr in zip(ec, res['equiv']):
         nt = c['T'] >= 2 and (c['B'] >= 2 or (c['input'] != 'padded' and len(set(c['lens'])) > 1))
         ctx.case(c, nontrivial=nt, kind='%s/%s/L%d%s' % (c['kind'], c['input'], c['layers'], 'b' if c['bidir'] else ''))
